@@ -639,7 +639,9 @@ static ASTNode *load_module_internal(const char *module_path, Environment *env, 
          * free it here.
          */
         env->current_module = saved_current_module;  /* Restore context */
-        free_ast(module_ast);
+        /* The AST is not freed here: functions the failed type check already registered in
+         * env keep pointers into it (their bodies), and the importer may still look them up
+         * (e.g. to report a redefinition). */
         free_tokens(tokens, token_count);
         free(source);
         return NULL;
